@@ -54,6 +54,7 @@ package c10
 
 import (
 	"context"
+	"crypto/sha256"
 	"crypto/tls"
 	"encoding/json"
 	"fmt"
@@ -83,23 +84,24 @@ type obsKey struct{}
 
 // obs is what one request lets us observe.
 type obs struct {
-	probed    bool
-	clientIP  string
-	trusted   bool
-	sent      bool
-	out       http.Header    // the attempt that succeeded (the last one)
-	attempts  []http.Header  // every attempt handed to the transport, in order
-	upstreams []string       // … and the upstream each one was directed to
-	cookie    string         // Secure attribute of the sticky cookie(s): "1", "0", "mixed", "-" (none set)
-	failLeft  int            // round trips that still have to fail (upstream "down")
-	dynRanges []netip.Prefix // what the request-scoped IPRangeSource answers for this request
-	outHost   string
-	matchedIP bool   // real `client_ip` matcher over matcherRanges
-	remoteHit bool   // real `remote_ip` matcher over the same ranges
-	placeh    string // {http.vars.client_ip} as the request's replacer expands it
-	logIP     string // the access log's request.client_ip field (LoggableHTTPRequest)
-	logHas    bool
-	ctx       context.Context // the prepared request's context (vars map), to read what reverse_proxy stored
+	probed                       bool
+	clientIP                     string
+	trusted                      bool
+	sent                         bool
+	out                          http.Header    // the attempt that succeeded (the last one)
+	attempts                     []http.Header  // every attempt handed to the transport, in order
+	upstreams                    []string       // … and the upstream each one was directed to
+	cookie                       string         // Secure attribute of the sticky cookie(s): "1", "0", "mixed", "-" (none set)
+	failLeft                     int            // round trips that still have to fail (upstream "down")
+	dynRanges                    []netip.Prefix // what the request-scoped IPRangeSource answers for this request
+	outHost                      string
+	matchedIP                    bool   // real `client_ip` matcher over matcherRanges
+	celRan, celClient, celRemote bool   // the CEL forms of both matchers, when the probe carries them
+	remoteHit                    bool   // real `remote_ip` matcher over the same ranges
+	placeh                       string // {http.vars.client_ip} as the request's replacer expands it
+	logIP                        string // the access log's request.client_ip field (LoggableHTTPRequest)
+	logHas                       bool
+	ctx                          context.Context // the prepared request's context (vars map), to read what reverse_proxy stored
 }
 
 var fwdNames = [3]string{"X-Forwarded-For", "X-Forwarded-Proto", "X-Forwarded-Host"}
@@ -109,8 +111,12 @@ type Probe struct {
 	Omit   []string `json:"omit,omitempty"`
 	Ranges []string `json:"ranges,omitempty"` // evaluated with the real `client_ip` matcher (ip_matchers.go)
 
-	cm *caddyhttp.MatchClientIP
-	rm *caddyhttp.MatchRemoteIP
+	CEL bool `json:"cel,omitempty"` // also evaluate the CEL forms client_ip(…) / remote_ip(…)
+
+	cm  *caddyhttp.MatchClientIP
+	rm  *caddyhttp.MatchRemoteIP
+	cmx *caddyhttp.MatchExpression
+	rmx *caddyhttp.MatchExpression
 }
 
 func (p *Probe) Provision(ctx caddy.Context) error {
@@ -120,7 +126,18 @@ func (p *Probe) Provision(ctx caddy.Context) error {
 			return err
 		}
 		p.rm = &caddyhttp.MatchRemoteIP{Ranges: p.Ranges}
-		return p.rm.Provision(ctx)
+		if err := p.rm.Provision(ctx); err != nil {
+			return err
+		}
+		if p.CEL {
+			args := "'" + strings.Join(p.Ranges, "', '") + "'"
+			p.cmx = &caddyhttp.MatchExpression{Expr: "client_ip(" + args + ")"}
+			if err := p.cmx.Provision(ctx); err != nil {
+				return err
+			}
+			p.rmx = &caddyhttp.MatchExpression{Expr: "remote_ip(" + args + ")"}
+			return p.rmx.Provision(ctx)
+		}
 	}
 	return nil
 }
@@ -137,6 +154,11 @@ func (p *Probe) ServeHTTP(w http.ResponseWriter, r *http.Request, next caddyhttp
 		if p.cm != nil {
 			o.matchedIP = p.cm.Match(r)
 			o.remoteHit = p.rm.Match(r)
+		}
+		if p.cmx != nil {
+			o.celRan = true
+			o.celClient, _ = p.cmx.MatchWithError(r)
+			o.celRemote, _ = p.rmx.MatchWithError(r)
 		}
 		if repl, ok := r.Context().Value(caddy.ReplacerCtxKey).(*caddy.Replacer); ok {
 			o.placeh = repl.ReplaceAll("{http.vars.client_ip}", "")
@@ -637,6 +659,12 @@ func (k *kase) srvField() string {
 	return listField(k.srvT, k.srvTNil, false)
 }
 
+// cel: one configuration in eight also carries the CEL forms of the matchers (compiling them is slow).
+func (k *kase) cel() bool {
+	h := sha256.Sum256([]byte(k.cfgKey()))
+	return h[0]%8 == 0
+}
+
 func (k *kase) cfgKey() string {
 	srv := k.srvField()
 	if k.srvDyn {
@@ -679,6 +707,9 @@ func (p *prop) server(k *kase) (*caddyhttp.Server, error) {
 		probe["omit"] = omit
 	}
 	probe["ranges"] = k.matcherRanges()
+	if k.cel() {
+		probe["cel"] = true
+	}
 	rp := map[string]any{
 		"handler":   "reverse_proxy",
 		"transport": map[string]any{"protocol": "verif_c10"},
